@@ -509,14 +509,18 @@ example : ((GenBank.genbankParser GenBank.Registry.default).run' ⟨sampleRecord
 
 /-! ## the loops of the GenBank reader: fuel ("never hangs") -/
 
-/-- THE RECORD LOOP NEVER RUNS OUT OF FUEL ("never loops forever", the loop of `GenBankParser`):
+/-- THE OUTCOME OF THE RECORD LOOP DOES NOT DEPEND ON ITS FUEL (the loop of `GenBankParser`; docstring
+corrected after audit finding S4: this statement ALONE does not say "never loops forever" — the model's
+loop answers `fail` when its fuel is used up, which a malformed record gives as well, so a loop that
+spins on an error path satisfies it too.  That each round consumes and that the loop ends BY ITSELF
+within `bytes left + 1` rounds are `recordLoop_round_consumes` / `recordLoop_iterations_le` in
+Props/C07Fuel.lean, about a copy of the loop with a distinguishable fuel-out.)  The proof goes:
 from ANY state whose saved positions are sorted — also with positions on the stack that earlier
 parsers leaked — every iteration either ends the loop (end mark, hard failure, end of input) or
 leaves strictly fewer bytes: a parsed field has consumed its name, a skipped line at least one
 byte, and no sub-parser ever goes back behind the position where the iteration began.  Hence the
 fuel is an iteration counter that is never used up once it exceeds the number of bytes left: any
-two such fuels give the same outcome and the same final state.  THE NUMBER OF ITERATIONS IS AT MOST
-`bytes left + 1`.  (`depth ≥ 1`: `genbankLocusParser` reports an indent of at least 5, see
+two such fuels give the same outcome and the same final state (the statement).  (`depth ≥ 1`: `genbankLocusParser` reports an indent of at least 5, see
 `genbankParser_loop_fuel`.)
 
 Before 66de3a0 this was FALSE and its negation was the theorem `recordLoop_fuel_full_refuted`
@@ -540,7 +544,8 @@ theorem recordLoop_fuel_full (length : Int) (depth : Nat) (hd : 1 ≤ depth) (su
 
 /-- … as `GenBankParser` runs it: behind a LOCUS line that was read (its indent is the `depth`),
 on the cleared stack, the fuel `2n+2` it passes gives what every fuel above the `n` bytes left
-gives — in particular `n + 1`: the loop makes at most `n + 1` iterations. -/
+gives — in particular `n + 1`.  (That the loop makes at most `n + 1` iterations is
+`genbankParser_loop_ends`, Props/C07Fuel.lean.) -/
 theorem genbankParser_loop_fuel (s s1 : PS) (l : GenBank.Locus)
     (h : GenBank.locusParser.run' s = (.ok l, s1)) (sub : GenBank.Sub) (m : Nat)
     (hm : s1.rest.length < m) :
